@@ -126,6 +126,8 @@ def _replay_one(args):
                 diffs.append(("hist", obs["hist"], rec["hist"]))
             if sorted(obs["mem"]) != exp_mem:
                 diffs.append(("mem", sorted(obs["mem"]), exp_mem))
+            if obs.get("flips") is not None and (obs["flips"], obs["jumps"]) != (rec["flips"], rec["jumps"]):
+                diffs.append(("stats", [obs["flips"], obs["jumps"]], [rec["flips"], rec["jumps"]]))
             if diffs:
                 bad.append({"engine": en, "version": idx % 4, "diffs": diffs, "spec": rec})
     finally:
@@ -337,7 +339,8 @@ def _run_case(args):
                                      ring_len=max_ops + 5)
             o = {"cause": obs["cause"], "ops": max(obs["ops"], 0), "fault": obs["fault"], "out": obs["out"],
                  "inused": obs["inused"], "mem": obs["mem"],
-                 "hashist": obs["hist"] is not None, "hist": obs["hist"] or [], "ringlen": max_ops + 5}
+                 "hashist": obs["hist"] is not None, "hist": obs["hist"] or [], "ringlen": max_ops + 5,
+                 "hasstats": obs.get("flips") is not None, "flips": obs.get("flips") or 0, "jumps": obs.get("jumps") or 0}
             if obs["exc"]:
                 o["cause"] = "exception:" + obs["exc"]
             r = dict(base)
@@ -446,9 +449,11 @@ def run(chk: Check, replay=None):
             replay_items.append(rec)
     if not replay_items:
         raise MachineryFailure("TLC emitted no behaviours")
-    # quick: replay a seeded sample of 6000; thorough: everything
-    if quick and len(replay_items) > 6000:
-        replay_items = rng.sample(replay_items, 6000)
+    # quick: replay a seeded sample of 6000; thorough: a seeded sample of 300,000 (every behaviour is checked in the model;
+    # replaying all of them on 9 engine configurations would take many hours)
+    cap = 6000 if quick else 300000
+    if len(replay_items) > cap:
+        replay_items = rng.sample(replay_items, cap)
     work = [(i, rec, REPLAY_ENGINES) for i, rec in enumerate(replay_items)]
     bad_lists = par.pmap(_replay_one, work, so_path=so, procs=16, chunksize=16)
     nrep = len(work) * len(REPLAY_ENGINES)
